@@ -808,3 +808,5 @@ def run(ck):
 #  5. hashutil.tagged_pair_hash: second value not netstring-wrapped                                    -> caught
 #  6. immutable/upload._make_trackers: cancel secret derived from file_renewal_secret                  -> caught
 #  7. hashutil._convergence_hasher_tag: parameters "%d,%d,%d" not wrapped in a netstring               -> caught
+#  8. storage_client.get_foolscap_write_enabler_seed: permutation_seed instead of tubid              -> caught
+#  9. storage_client._FoolscapStorage.lease_seed: permutation_seed instead of tubid                   -> caught
